@@ -164,6 +164,7 @@ def rule_pipeline(ctx):
         # R3: axes
         appends = [e for e in p.calls('append') if e.loops]
         ok = bool(appends)
+        unguarded = {}
         for e in appends:
             a = e.a[2][0]
             if not (a[0] == 'call' and T.call_name(a) == 'copy'):
@@ -176,6 +177,19 @@ def rule_pipeline(ctx):
                 if x[0] == 'elem' and x[1] == ('attr', A, 'axes'):
                     ax = x
             placeholder = [pol for g, pol in e.guards if 'None' in T.show(g) and 'values' in T.show(g)]
+            # "for all pairs of DimArrays" includes operands with an empty axis: the first label is only read where the axis is known non-empty
+            from .c06 import _nonempty_fact
+            nonempty = []
+            for g, pol in e.guards:
+                x = _nonempty_fact(g, pol)
+                if x is not None:
+                    nonempty.append(x)
+                for t in T.subterms(g):
+                    if t[0] == 'sub' and t[2] == const(0) and t[1][0] == 'attr' and t[1][2] == 'values' and t[1][1][0] == 'elem':
+                        if t[1][1] not in nonempty and t[1] not in nonempty and e.node.lineno not in unguarded:
+                            unguarded[e.node.lineno] = T.show(t)
+            if src[0] == 'elem' and placeholder == [] and any(_nonempty_fact(g, not pol) is not None for g, pol in e.guards):
+                placeholder = [False]      # an empty axis cannot be the size-1 placeholder
             if src[0] == 'elem':
                 if src[1] != ('attr', A, 'axes'):
                     ctx.violated('R3', fi, e.node, 'result axes must be taken from the aligned first operand', node=e.node)
@@ -192,6 +206,11 @@ def rule_pipeline(ctx):
                 elif placeholder != [True]:
                     ctx.violated('R3', fi, e.node, 'the second operand\'s axis is only used for singleton placeholders', node=e.node)
                     ok = False
+        for ln in sorted(unguarded):
+            ctx.violated('R3', fi, 'label read %s' % unguarded[ln][:80], 'the first label of an operand axis is read (%s) on a path that has not established that the '
+                         'axis is non-empty: arithmetic on arrays with an empty axis raises IndexError instead of returning the (empty) result' % unguarded[ln][:80], node=p.node)
+            ok = False
+            break
         if len(appends) < 2:
             ctx.violated('R3', fi, 'newaxes loop', 'expected the two alternatives (own axis / replaced placeholder) in the result-axes loop', node=p.node)
             ok = False
